@@ -146,12 +146,20 @@ class Roles:
                 return None
         return None
 
-    def _is_now_secs(self, e):
+    def _is_now_secs(self, e, depth=0):
         e = strip_casts(e)
         if e[0] == 'call' and e[1] == 'core::time::Duration::as_secs':
             for c in calls_in(e):
                 if c[1] == 'std::time::SystemTime::now':
                     return True
+        if e[0] == 'call' and depth < 3 and e[1].startswith('cachelito_core::'):
+            # a local helper that returns the current whole-second clock
+            for b in self.prog.by_name.get(e[1], []):
+                if b.kind in ('fn', 'assoc_fn'):
+                    ex = self.ex(b)
+                    rets = [ex._def(d, 0) for d in b.defs.get(0, [])]
+                    if rets and all(self._is_now_secs(r, depth + 1) for r in rets):
+                        return True
         return False
 
     def comparisons(self, body):
